@@ -271,6 +271,8 @@ def configs(ctx):
     out.append(make_config("two-src-short", [(A, 1, 255, c012), (A, 2, 255, c012)], None))
     out.append(make_config("two-pgn-padFF", [(A, 1, 255, c012), (B, 1, 255, c012)], 0xFF))
     out.append(make_config("two-dst-short", [(A, 1, 1, c0102), (A, 1, 2, c012)], None))
+    # two addressed streams whose source and destination digits can be split differently (1|23 and 12|3)
+    out.append(make_config("two-streams-digit-split-short", [(A, 1, 23, c012), (A, 12, 3, c012)], None))
     out.append(make_config("one-012-usb", [(A, 1, 255, c012)], 0xFF, "usb"))
     out.append(make_config("one-0102-yd", [(A, 1, 255, c0102)], None, "yd"))
     out.append(make_config("one-012-plain", [(B, 7, 255, c012)], None, "plain"))
